@@ -2,12 +2,15 @@ package cluster
 
 import (
 	"bytes"
+	"errors"
 	"fmt"
 	"sync"
 	"testing"
 
 	"github.com/hashicorp/raft"
 	"pgregory.net/rapid"
+
+	"github.com/hashicorp/raft-wal/verifier"
 
 	"verifharness/common"
 	"verifharness/refmodel"
@@ -36,6 +39,9 @@ func genC17(t *rapid.T) ClusterCase {
 		// an entry whose Index is altered in flight is rejected by a monotonic
 		// store (or changes replication itself); only at-rest index divergence is in the domain
 		m.Field = "term"
+	}
+	if m.Mode == "atrest" && rapid.IntRange(0, 3).Draw(t, "compactAfterRead") == 0 {
+		m.CompactAfterRead = true
 	}
 	c.Mut = m
 	return c
@@ -216,6 +222,17 @@ func runC17WithSim(s *sim, c ClusterCase) (res common.Result) {
 	s.expectBad[key] = true
 	if m.Mode == "atrest" {
 		tn.rest.set(idx, func(l *raft.Log) { apply(l) })
+		if m.CompactAfterRead && !tn.Told.Empty() && tn.Told.First <= start {
+			first, under := tn.Told.First, tn.rest.LogStore
+			var once sync.Once
+			tn.rest.setAfterGet(func(i uint64) {
+				if i == end-1 {
+					once.Do(func() { _ = under.DeleteRange(first, start) })
+				}
+			})
+			defer tn.rest.setAfterGet(nil)
+			res.Classes = append(res.Classes, "compaction-right-after-last-read")
+		}
 	}
 	// final checkpoint
 	if m.Role == "leader" {
@@ -266,6 +283,15 @@ func TestC20Verifier(t *testing.T) {
 		defer s.close()
 		// reuse the C17 scenario; its own verdict belongs to C17 and is ignored here
 		_ = runC17WithSim(s, c)
+		if c.Mut != nil && c.Mut.Bit%2 == 0 {
+			if f := readFailureEpilogue(s); f != nil {
+				res.Fail = f
+				return
+			}
+			if s.cls["report-with-read-error"] {
+				res.Classes = append(res.Classes, "verification-met-a-read-error")
+			}
+		}
 		mism := uint64(0)
 		for _, n := range s.nodes {
 			n.Quiesce()
@@ -289,4 +315,62 @@ func TestC20Verifier(t *testing.T) {
 		}
 		return
 	})
+}
+
+// readFailureEpilogue makes one verification fail on a read: while the leader's report callback
+// is held inside the report of checkpoint A, checkpoint B is stored (its report waits in the
+// hand-off buffer) and a tail truncation then removes part of B's range. B's verification finds
+// the range start present but cannot read all of it: that report carries a read error, which is
+// neither a written-checksum nor a read-checksum failure.
+func readFailureEpilogue(s *sim) *common.Failure {
+	ld := s.nodes[s.leader]
+	ld.Quiesce()
+	for _, r := range ld.TakeReports() {
+		s.judge(ld, r)
+	}
+	block, entered := make(chan struct{}), make(chan struct{}, 1)
+	ld.mu.Lock()
+	ld.block, ld.entered = block, entered
+	ld.mu.Unlock()
+	release := func() {
+		ld.mu.Lock()
+		if ld.block != nil {
+			close(ld.block)
+			ld.block, ld.entered = nil, nil
+		}
+		ld.mu.Unlock()
+	}
+	defer release()
+	next := ld.LogicalLast + 1
+	if err := ld.Store([]*raft.Log{ESpec{DataLen: 3, Seed: 7, CP: true}.mk(next, s.term)}); err != nil {
+		return common.Failf("leader-store-err", "%v", err)
+	}
+	<-entered // the verifier goroutine now sits in the callback with A's report; the buffer is empty
+	b := []*raft.Log{ESpec{DataLen: 4, Seed: 8}.mk(next+1, s.term), ESpec{DataLen: 4, Seed: 9}.mk(next+2, s.term), ESpec{DataLen: 2, Seed: 10, CP: true}.mk(next+3, s.term)}
+	if err := ld.Store(b); err != nil {
+		return common.Failf("leader-store-err", "%v", err)
+	}
+	if err := ld.Delete(next+2, next+3); err != nil {
+		return common.Failf("delete-err", "leader tail DeleteRange = %v", err)
+	}
+	release()
+	ld.Quiesce()
+	sawReadErr := false
+	for _, r := range ld.TakeReports() {
+		ld.Delivered++
+		var cm verifier.ErrChecksumMismatch
+		if errors.As(r.Err, &cm) {
+			if r.WrittenSum != 0 && r.WrittenSum != r.ExpectedSum {
+				ld.MismatchWritten++
+			} else {
+				ld.MismatchRead++
+			}
+		} else if r.Err != nil && !errors.Is(r.Err, verifier.ErrRangeMismatch) {
+			sawReadErr = true
+		}
+	}
+	if sawReadErr {
+		s.cls["report-with-read-error"] = true
+	}
+	return nil
 }
